@@ -239,18 +239,23 @@ def execute(plan):
     gc.collect()
     # let in-flight segments / FINs / connection set-ups arrive so the peers see the closes (events hold references
     # to sockets, so only afterwards can unreferenced sockets be finalised as CPython would)
-    try:
-        for _ in range(100000):
-            if not k.heap:
-                break
-            t = k.heap[0][0]
-            if t > k.now + 10_000_000:
-                break
-            k.now = max(k.now, t)
-            k._run_due()
-    except SimAbort:
-        pass
+    def drain():
+        try:
+            for _ in range(100000):
+                if not k.heap:
+                    break
+                t = k.heap[0][0]
+                if t > k.now + 10_000_000:
+                    break
+                k.now = max(k.now, t)
+                k._run_due()
+        except SimAbort:
+            pass
+    drain()
     gc.collect()
+    # a socket that only a pending event (its own connection set-up) kept alive is finalised by the collection above: in CPython it
+    # would have been closed when the last frame let go of it, so the FIN it sends now must still reach the peer
+    drain()
     rec['open_sockets'] = len([s.fd for s in world.live_sockets() if not s.closed])
     seams.deactivate()
     os.environ.clear()
